@@ -737,6 +737,29 @@ def gen_plain(rng, depth=2):
   return ['d', out]
 
 
+def gen_pydict(rng, unhashable=0.15):
+  """a dict literal whose KEYS are equal in Python under different spellings (1 / True, 0 / False, equal strings, equal
+  tuples, None): dict(...) makes them ONE entry (the earlier key and place, the later value); now and then a key that cannot
+  be hashed (TypeError)"""
+  fam = rng.choice([[['i', 1], ['b', True]], [['i', 0], ['b', False]], [['s', 'k'], ['s', 'k']], [['n'], ['n']],
+                    [['t', [['i', 1], ['s', 'a']]], ['t', [['b', True], ['s', 'a']]]]])
+  keys = [rng.choice(fam) for _ in range(rng.randint(2, 3))] + ([['i', 7]] if rng.random() < 0.5 else [])
+  rng.shuffle(keys)
+  if rng.random() < unhashable:
+    keys.insert(rng.randrange(len(keys) + 1), rng.choice([['l', [['i', 1]]], ['d', []], ['t', [['i', 1], ['l', []]]]]))
+  return ['d', [[k, gen_plain(rng, 0)] for k in keys]]
+
+
+def has_unhashable_key(v):
+  def unh(k):
+    return k[0] in ('l', 'd') or (k[0] == 't' and any(unh(x) for x in k[1]))
+  if v[0] in ('l', 't'):
+    return any(has_unhashable_key(x) for x in v[1])
+  if v[0] == 'd':
+    return any(unh(k) or has_unhashable_key(k) or has_unhashable_key(x) for k, x in v[1])
+  return False
+
+
 def gen_sig(rng, allow_req=True, rich=True):
   n = rng.choice([0, 1, 2, 2, 3, 3, 4]) if rich else rng.choice([1, 2, 3])
   args = PARAMS[:n]
